@@ -114,6 +114,9 @@ def resample_strategy(draw, tier):
             # the neuron in stack / atlas coordinates: moved by multiples of 4096 (exact for the 1/8 lattice in float32)
             "far": draw(st.sampled_from([None, None, None, [8192.0, -16384.0, 4096.0], [32768.0, 12288.0, -28672.0], [-20480.0, 0.0, 0.0]])),
             # the spacing handed over as a Python float, an int / numpy integer (whole-number spacings), or a numpy float
+            # the neuron handed over as a branch tree (an instance of a Tree subclass made by the library): it is resampled as
+            # the tree it is (straight segments between its key nodes)
+            "as_branch_tree": draw(st.integers(0, 5)) == 0,
             "d_form": draw(st.sampled_from(["float", "float", "int", "np.int64", "np.float32", "np.float64"])),
             # the other spacing mode: steps of exactly the spacing and a shorter last step (no clause on equal steps there)
             "adjust_last_gap": draw(st.integers(0, 4)) != 0}
@@ -272,6 +275,20 @@ def run_resample(case, ctx):
     else:
         d_arg = d
     tree = gen_tree.build_tree(t)
+    if case.get("as_branch_tree") and "zero_branch" not in t and "twin_tips" not in t and "coincident_sibling_ends" not in t:
+        from swcgeom.transforms import ToBranchTree
+
+        tree = ToBranchTree()(tree)
+        t = dict(t, parents=[int(v) for v in tree.pid()], type=[int(v) for v in tree.type()])
+        for col in ("x", "y", "z", "r", "w"):
+            t[col] = [float(v) for v in tree.get_ndata(col)]
+        t["tag"] = [int(v) for v in tree.get_ndata("tag")]
+        parents = t["parents"]
+        d, lens = _spacing(t, case["f"], case["special"])
+        d = float(int(d)) if form in ("int", "np.int64") and d >= 1.0 else float(np.float32(d)) if form == "np.float32" else d
+        d_arg = {"int": int, "np.int64": lambda v: np.int64(int(v)), "np.float32": np.float32, "np.float64": np.float64}.get(
+            form if not (form in ("int", "np.int64") and d < 1.0) else "float", float)(d)
+        ctx.cls("input-is-a-branch-tree")
     before = {k: v.copy() for k, v in tree.ndata.items()}
     ch = models.children(parents)
     P = models.xyz64(t)
@@ -486,7 +503,7 @@ SUBCHECKS = [
                   "zero-length-branch": 30, "d<meanL": 300, "d>=meanL": 300, "twin-tips": 40,
                   "numbering-not-parent-before-child": 200, "resampler-object-reused": 300,
                   "sibling-key-nodes-at-the-same-place": 100, "resampled-again-after-the-neuron-changed": 300,
-                  "mode:last-step-shorter": 250, "far-from-the-origin": 400, "spacing-given-as-an-integer": 100}),
+                  "mode:last-step-shorter": 250, "far-from-the-origin": 400, "spacing-given-as-an-integer": 100, "input-is-a-branch-tree": 150}),
     Sub("branch", branch_strategy, run_branch, quick=2400, thorough=24000, shards_quick=2,
         required={"via:tree": 200, "via:from_xyzr": 200, "L=0": 10, "has-zero-length-segment": 100}),
     Sub("smooth", smooth_strategy, run_smooth, quick=1500, thorough=12000, shards_quick=2,
